@@ -35,14 +35,14 @@ func (g *G) mk(name, origin string, anns []string, fields ...Field) *Struct {
 }
 
 var (
-	tInt    = func() *Ty { return Basic("int") }
-	tStr    = func() *Ty { return Basic("string") }
-	tF64    = func() *Ty { return Basic("float64") }
-	tBool   = func() *Ty { return Basic("bool") }
-	vOnly   = []string{"@fp.Value"}
-	vJL     = []string{"@fp.Value", "@fp.Json", "@fp.GenLabelled"}
-	vL      = []string{"@fp.Value", "@fp.GenLabelled"}
-	vJ      = []string{"@fp.Value", "@fp.Json"}
+	tInt  = func() *Ty { return Basic("int") }
+	tStr  = func() *Ty { return Basic("string") }
+	tF64  = func() *Ty { return Basic("float64") }
+	tBool = func() *Ty { return Basic("bool") }
+	vOnly = []string{"@fp.Value"}
+	vJL   = []string{"@fp.Value", "@fp.Json", "@fp.GenLabelled"}
+	vL    = []string{"@fp.Value", "@fp.GenLabelled"}
+	vJ    = []string{"@fp.Value", "@fp.Json"}
 )
 
 // SeedPackage returns the k-th seed package (k = 0..NumSeeds-1) of the C07 flavour.
@@ -114,7 +114,7 @@ func SeedPackage(r *rand.Rand, k int, pkg string) *Pkg {
 		)
 		ak.Trailing = true
 		person := g.mk("Person", "testpk2.Person", vOnly, fld("name", tStr()), fld("age", tInt()), fld("height", tF64()), fld("phone", OptionT(tStr(), true)), fld("addr", SliceT(tStr())),
-			fld("seq", SeqT(tF64())), fld("blob", BytesT()), fld("_notExport", tStr()))
+			fld("list", HlistT()), fld("seq", SeqT(tF64())), fld("blob", BytesT()), fld("_notExport", tStr()))
 		g.mk("Wallet", "testpk2.Wallet", vOnly, fld("owner", StructRefT(person)), fld("amount", Basic("int64")))
 		e := g.mk("Entry", "testpk2.Entry", vOnly)
 		e.TParams = []TParam{{Name: "A", CSrc: "comparable", CK: "comparable", Inst: tStr()}, {Name: "B", CSrc: "any", CK: "any", Inst: tInt()},
